@@ -136,6 +136,8 @@ def tilewalker_cleanup(task, dry_run, concurrency, skip_geoms_for_last_levels,
         handle_all = True
     else:
         task.tile_manager._expire_timestamp = task.remove_timestamp
+        # the timestamp of the cleanup task decides, not the refresh_before option of the cache
+        task.tile_manager._refresh_before = {}
         handle_all = False
 
     task.tile_manager.minimize_meta_requests = False
